@@ -282,6 +282,22 @@ CHECKS['C17'] = dict(
               'correspondence (state compared after every step) + independent consistency oracle',
     design='C17')
 
+CHECKS['C18'] = dict(
+    text='Theorems (over all segment facts): C18_no_false_positive (a segment with the properties the server guarantees - C03 offsets, '
+         'C02/C06 numbering and timing - produces no validator error), C18_detects_sequence_number, C18_detects_decode_time (beyond the '
+         'tolerance) with C18_decode_time_tolerance (within it the validator is provably silent), C18_detects_trun_offset, '
+         'C18_detects_saio_offset, C18_detects_missing_segment, C18_timeline_gap, about a transcription of the per-segment decision '
+         'predicates of media_segment.py. Tied to /repo by running the REAL DashValidator through an in-process client that rewrites '
+         'one response: for every validated segment (pristine and corrupted) the facts are extracted from the bytes it received by the '
+         'independent walker and the model error list is compared with the errors the validator recorded for that segment. Oracle: '
+         'pristine sessions (templates x modes x DRM x options, with refreshes) report nothing and terminate; every catalogue entry '
+         '(segment, init segment and manifest level) yields an error located at the corrupted element.',
+    note=TB + 'PARTIAL: the validator\'s traversal, asyncio pool, XML loading and its manifest-level checks are executed, not modelled; '
+         '"wrong decode time" is claimed beyond the validator\'s tolerance only.',
+    technique='Coq proof (case analysis of the decision predicates, linear arithmetic) + differential correspondence against the real '
+              'validator on rewritten responses + detection oracle over the corruption catalogue',
+    design='C18')
+
 NOT_YET = {
 }
 
